@@ -160,3 +160,118 @@ def _instantiate(helper: ast.FunctionDef, call: ast.Call, caller: ast.FunctionDe
     for st in body:
         ast.fix_missing_locations(st)
     return body or [ast.copy_location(ast.Pass(), call)]
+
+
+def desugar_optional_setters(model, packages=("diameter.node",)):
+    """`x = self.build(a, b, attr=V)`  ->  `x = self.build(a, b); x.attr = V`.
+
+    A method that ends with `return <r>` and contains, for a parameter p with default None, the
+    statement `if p is not None: <r>.<name> = p` (and no other use of p) offers p as an optional
+    setter of the object it returns.  A call that passes p - written as the whole right-hand side
+    of an assignment to a plain name - is rewritten into the call without p followed by the store,
+    which is what the method would have done; the parameter handling is then removed from the
+    method.  Every rule sees the two-statement spelling, whichever the source uses."""
+    done = []
+    for mname, mod in model.modules.items():
+        if not any(mname.startswith(p) for p in packages):
+            continue
+        for ci in mod.classes.values():
+            for f in list(ci.all_funcs):
+                fn = f.node
+                if not fn.body or not isinstance(fn.body[-1], ast.Return) \
+                        or not isinstance(fn.body[-1].value, ast.Name):
+                    continue
+                ret = fn.body[-1].value.id
+                a = fn.args
+                params = [x.arg for x in a.args]
+                defaults = dict(zip(params[len(params) - len(a.defaults):], a.defaults))
+                setters = {}      # param -> (attr, stmt)
+                for st in fn.body:
+                    if isinstance(st, ast.If) and not st.orelse and len(st.body) == 1 \
+                            and isinstance(st.test, ast.Compare) and len(st.test.ops) == 1 \
+                            and isinstance(st.test.ops[0], ast.IsNot) and isinstance(st.test.left, ast.Name) \
+                            and isinstance(st.test.comparators[0], ast.Constant) and st.test.comparators[0].value is None:
+                        p = st.test.left.id
+                        b = st.body[0]
+                        if p in defaults and isinstance(defaults[p], ast.Constant) and defaults[p].value is None \
+                                and isinstance(b, ast.Assign) and len(b.targets) == 1 \
+                                and isinstance(b.targets[0], ast.Attribute) and isinstance(b.targets[0].value, ast.Name) \
+                                and b.targets[0].value.id == ret and isinstance(b.value, ast.Name) and b.value.id == p:
+                            uses = sum(1 for x in ast.walk(fn) if isinstance(x, ast.Name) and x.id == p)
+                            if uses == 2:
+                                setters[p] = (b.targets[0].attr, st)
+                if not setters:
+                    continue
+                # every call of the method in the class passes the setter parameters by keyword
+                # (or not at all) and is the right-hand side of `name = self.m(...)`
+                sites, ok, trims = [], True, []
+                for g in ci.all_funcs:
+                    for parent in ast.walk(g.node):
+                        for fld in ("body", "orelse", "finalbody"):
+                            blk = getattr(parent, fld, None)
+                            if not isinstance(blk, list):
+                                continue
+                            for i, st in enumerate(blk):
+                                if hasattr(st, "body") or isinstance(st, ast.Match):
+                                    # compound statement: its blocks are visited on their own; a call in
+                                    # its header (test, iterable) cannot be rewritten
+                                    hdr = [x for fl in ("test", "iter", "subject", "items") for x in
+                                           ([getattr(st, fl)] if isinstance(getattr(st, fl, None), ast.AST)
+                                            else getattr(st, fl, None) or [])]
+                                    if any(isinstance(x, ast.Call) and isinstance(x.func, ast.Attribute)
+                                           and x.func.attr == f.name and (x.keywords or len(x.args) > 2)
+                                           for h_ in hdr for x in ast.walk(h_)):
+                                        ok = False
+                                    continue
+                                for c in [x for x in ast.walk(st) if isinstance(x, ast.Call)
+                                          and isinstance(x.func, ast.Attribute) and x.func.attr == f.name
+                                          and isinstance(x.func.value, ast.Name) and x.func.value.id == "self"]:
+                                    kws = [k for k in c.keywords if k.arg in setters]
+                                    # (the normaliser may have made keyword arguments positional)
+                                    first = min(params.index(p) for p in setters) - 1
+                                    if set(params[first + 1:]) != set(setters):
+                                        ok = False          # setters are not the trailing parameters
+                                        continue
+                                    for j in range(len(c.args) - 1, first - 1, -1):
+                                        v_ = c.args[j]
+                                        if not (isinstance(v_, ast.Constant) and v_.value is None):
+                                            kws.insert(0, ast.keyword(arg=params[j + 1], value=v_))
+                                    if not kws:
+                                        if len(c.args) > first:
+                                            trims.append((c, first))
+                                        continue
+                                    trims.append((c, first))
+                                    if isinstance(st, (ast.Assign, ast.AnnAssign)) and st.value is c \
+                                            and isinstance((st.targets[0] if isinstance(st, ast.Assign) else st.target), ast.Name):
+                                        sites.append((blk, st, c, kws))
+                                    else:
+                                        ok = False
+                ext = sum(1 for m2 in model.modules.values() if m2 is not mod for n in ast.walk(m2.tree)
+                          if isinstance(n, ast.Call) and isinstance(n.func, ast.Attribute) and n.func.attr == f.name
+                          and any(k.arg in setters for k in n.keywords))
+                if not ok or ext:
+                    continue
+                for c, first in trims:
+                    del c.args[first:]
+                for blk, st, c, kws in sites:
+                    tgt = (st.targets[0] if isinstance(st, ast.Assign) else st.target).id
+                    new = []
+                    for k in kws:
+                        if k in c.keywords:
+                            c.keywords.remove(k)
+                        s2 = ast.Assign(targets=[ast.Attribute(value=ast.Name(id=tgt, ctx=ast.Load()),
+                                                               attr=setters[k.arg][0], ctx=ast.Store())],
+                                        value=k.value)
+                        ast.copy_location(s2, st)
+                        ast.fix_missing_locations(s2)
+                        new.append(s2)
+                    i = blk.index(st)
+                    blk[i + 1:i + 1] = new
+                for p, (attr, st) in setters.items():
+                    fn.body.remove(st)
+                    idx = params.index(p)
+                    del a.args[idx]
+                    del a.defaults[idx - (len(params) - len(a.defaults))]
+                    params = [x.arg for x in a.args]
+                done.append(f"{ci.name}.{f.name}({', '.join(setters)})")
+    return done
